@@ -53,4 +53,46 @@ Section TangentFacts.
     let N := vnth o normals (corner n c) in
     dot o N N = rI o -> dot o N (vscale o k (code_corner_tangent o normals tans1 t n c)) = rO o.
   Proof. intros N H. rewrite code_corner_tangent_is_project. apply (project_scaled_orthogonal o Rth). exact H. Qed.
+  (* ---------------------------------------------------------------- binormal *)
+  Add Ring TRing : Rth.
+  Definition scale_r (b : vec o) (w : car o) : vec o :=
+    (rmul o (vx o b) w, rmul o (vy o b) w, rmul o (vz o b) w).
+
+  (* w * (n x t) is orthogonal to n and to t - for any vectors and any factor *)
+  Lemma binormal_orthogonal (n t : vec o) (w : car o) :
+    dot o n (scale_r (cross o n t) w) = rO o /\ dot o t (scale_r (cross o n t) w) = rO o.
+  Proof.
+    destruct n as [[n1 n2] n3], t as [[t1 t2] t3].
+    unfold scale_r, dot, cross, vx, vy, vz; simpl. split; ring.
+  Qed.
+
+  (* Lagrange: |n x t|^2 = |n|^2 |t|^2 - (n.t)^2 *)
+  Lemma lagrange (n t : vec o) :
+    dot o (cross o n t) (cross o n t) = rsub o (rmul o (dot o n n) (dot o t t)) (rmul o (dot o n t) (dot o n t)).
+  Proof.
+    destruct n as [[n1 n2] n3], t as [[t1 t2] t3]. unfold dot, cross, vx, vy, vz; simpl. ring.
+  Qed.
+
+  (* ... and a unit vector when n and t are orthogonal unit vectors and the handedness is +-1 *)
+  Lemma binormal_unit (n t : vec o) (w : car o) :
+    dot o n n = rI o -> dot o t t = rI o -> dot o n t = rO o -> rmul o w w = rI o ->
+    dot o (scale_r (cross o n t) w) (scale_r (cross o n t) w) = rI o.
+  Proof.
+    intros Hn Ht Hnt Hw.
+    assert (E : dot o (scale_r (cross o n t) w) (scale_r (cross o n t) w) =
+                rmul o (rmul o w w) (dot o (cross o n t) (cross o n t))).
+    { generalize (cross o n t) as b. intros [[b1 b2] b3]. unfold scale_r, dot, vx, vy, vz; simpl. ring. }
+    rewrite E, lagrange, Hn, Ht, Hnt, Hw. ring.
+  Qed.
+
+  Variable nrm : vec o -> vec o.
+  Variable sgn : car o -> car o.
+
+  (* the generated binormal of a corner is handedness * (normal x normalised tangent), the normal
+     being the one selected by the corner's NORMAL index *)
+  Lemma code_corner_binormal_is normals tans1 tans2 t n c :
+    code_corner_binormal o nrm sgn normals tans1 tans2 t n c =
+    scale_r (cross o (vnth o normals (corner n c)) (nrm (code_corner_tangent o normals tans1 t n c)))
+            (code_corner_handedness o sgn normals tans1 tans2 t n c).
+  Proof. reflexivity. Qed.
 End TangentFacts.
